@@ -1,6 +1,7 @@
 package l4socks
 
 import (
+	"context"
 	"fmt"
 	"net"
 	"strings"
@@ -8,6 +9,7 @@ import (
 	"github.com/caddyserver/caddy/v2"
 	"github.com/caddyserver/caddy/v2/caddyconfig/caddyfile"
 	"github.com/things-go/go-socks5"
+	"github.com/things-go/go-socks5/statute"
 	"go.uber.org/zap"
 
 	"github.com/mholt/caddy-l4/layer4"
@@ -79,11 +81,31 @@ func (h *Socks5Handler) Provision(ctx caddy.Context) error {
 	h.server = socks5.NewServer(
 		socks5.WithLogger(&socks5Logger{l: ctx.Logger(h)}),
 		socks5.WithRule(rule),
+		socks5.WithRewriter(associateSourceRewriter{}),
 		socks5.WithBindIP(net.ParseIP(caddy.NewReplacer().ReplaceAll(h.BindIP, ""))),
 		socks5.WithAuthMethods(authMethods),
 	)
 
 	return nil
+}
+
+// associateSourceRewriter pins the UDP relay of an ASSOCIATE request to the client's own IP address
+// when the client announces no address (0.0.0.0 / :: / empty), which is what most clients do.
+// The library accepts datagrams from the announced address only, and from every source if that is
+// unspecified; RFC 1928 section 7 requires the relay to drop datagrams from any other source IP,
+// otherwise third parties could use the relay of an authenticated client without authenticating.
+type associateSourceRewriter struct{}
+
+func (associateSourceRewriter) Rewrite(ctx context.Context, r *socks5.Request) (context.Context, *statute.AddrSpec) {
+	dst := r.RawDestAddr
+	if r.Command != statute.CommandAssociate || (len(dst.IP) != 0 && !dst.IP.IsUnspecified()) {
+		return ctx, dst
+	}
+	client, ok := r.RemoteAddr.(*net.TCPAddr)
+	if !ok || client == nil || len(client.IP) == 0 || client.IP.IsUnspecified() {
+		return ctx, dst
+	}
+	return ctx, &statute.AddrSpec{FQDN: dst.FQDN, IP: client.IP, Port: dst.Port, AddrType: dst.AddrType}
 }
 
 // Handle handles the SOCKSv5 connection.
